@@ -68,7 +68,7 @@ Definition kind_eqb (a b : vkind) : bool :=
 Definition iw_eqb (a b : iw) : bool :=
   match a, b with B8, B8 | B16, B16 | B32, B32 | B64, B64 => true | _, _ => false end.
 
-(* the variant list admits the value's variant: index, name, kind; the payload is checked by the caller *)
+(* the variant list accepts the value's variant: index, name, kind; the payload is checked by the caller *)
 Definition variant_at {A} (vs : list (bytes * (vkind * A))) (i : N) (name : bytes) (k : vkind) : option A :=
   match nth_error vs (N.to_nat i) with
   | Some (n, (k', a)) => if beq n name && kind_eqb k k' then Some a else None
